@@ -283,7 +283,7 @@ def run(rc):
     quick = rc.tier == 'quick'
     exps = c01.expressions(3)
     rc.pmap(shard_exprs, exps, inputs=list(gs.inputs(['a', 'b', ' '], 2 if quick else 3)))
-    rc.pmap(shard_cuts, list(c05.programs(2, 1))[::1 if not quick else 3], inputs=list(gs.inputs(['1', '2'], 3)))
+    rc.pmap(shard_cuts, [p for p in c05.programs(2, 1) if not p[0].startswith('include-')][::1 if not quick else 3], inputs=list(gs.inputs(['1', '2'], 3)))
     rc.pmap(shard_features, list(FEATURES.items()), chunk=1)
     rc.pmap(shard_stress, list(stress_lexemes(2 if quick else 3)))
     rc.pmap(shard_antlr, ANTLR, chunk=1)
